@@ -62,7 +62,9 @@ type Script struct {
 	Close     bool     // peer closes after the chunks (EOF)
 	Fail      error    // or the transport fails with this error after the chunks
 	QueueSize int
-	Timeout   int // packet read timeout in seconds
+	Timeout   int // packet read timeout in seconds (0: the harness default of 50)
+	// ZeroTimeout: Info.PacketReadTimeout = 0, the value of an Info that was never given one
+	ZeroTimeout bool
 }
 
 // DumpPkg renders a library package canonically (reflect walker).
@@ -117,6 +119,9 @@ func Deliver(cfg vrt.Config, sc Script, consume func(conn *tds.Conn, ch *tds.Cha
 		to := sc.Timeout
 		if to == 0 {
 			to = 50
+		}
+		if sc.ZeroTimeout {
+			to = 0
 		}
 		conn, pipe, err := hx.NewConn(context.Background(), qs, to)
 		if err != nil {
